@@ -1,1 +1,37 @@
-From PC Require Import Model.Marker.
+(* C07 — marker intersection, union and inversion preserve truth.
+   Proved (level 1): inversion is complementation — for the atomic markers in both readings, and through
+   MultiMarker / MarkerUnion by De Morgan, including the constructors' flattening and de-duplication.
+   Not yet modelled (level 2): intersection / union / cnf / dnf / MultiMarker.of / MarkerUnion.of /
+   _merge_single_markers; their results are judged on the implementation by the oracle (truth tables on the
+   environment grid) and their structure and text are evaluated by this model on every run. *)
+From Coq Require Import List Bool NArith String.
+From PC Require Import Base.Result Model.Generic Model.Marker Proofs.GenericProofs Proofs.MarkerProofs.
+Import ListNotations.
+Open Scope string_scope.
+
+Theorem C07_invert_atomic : forall E name atoms v,
+  String.eqb name "extra" = false -> lookup name (e_vars E) = Some v ->
+  beval E (MAtomicUnion name (map atom_invert atoms)) = negb (beval E (MAtomicMulti name atoms)).
+Proof. exact invert_atomic_multi. Qed.
+Print Assumptions C07_invert_atomic.
+Theorem C07_invert_atomic_extra : forall E atoms act,
+  e_extras E = Some act -> forallb eqne atoms = true ->
+  beval E (MAtomicUnion "extra" (map atom_invert atoms)) = negb (beval E (MAtomicMulti "extra" atoms)).
+Proof. exact invert_atomic_multi_extra. Qed.
+Print Assumptions C07_invert_atomic_extra.
+Theorem C07_invert_multi : forall E l inv,
+  Forall2 (fun m i => beval E i = negb (beval E m)) l inv -> beval E (MUnion inv) = negb (beval E (MMulti l)).
+Proof. exact invert_multi_structure. Qed.
+Print Assumptions C07_invert_multi.
+Theorem C07_invert_union : forall E l inv,
+  Forall2 (fun m i => beval E i = negb (beval E m)) l inv -> beval E (MMulti inv) = negb (beval E (MUnion l)).
+Proof. exact invert_union_structure. Qed.
+Print Assumptions C07_invert_union.
+(* MultiMarker(...) / MarkerUnion(...) constructors: splicing nested members and dropping duplicates keeps the meaning,
+   provided equal keys mean equal values (true of every leaf built by SingleMarker.__init__: the constraint is a
+   function of name, operator, value and operand order) *)
+Theorem C07_constructors_sound : forall E,
+  (forall a b, marker_eqb a b = true -> beval E a = beval E b) ->
+  forall l, beval E (mk_union_marker l) = beval E (MUnion l) /\ beval E (mk_multi_marker l) = beval E (MMulti l).
+Proof. intros E H l. split; [apply flatten_union_sound | apply flatten_multi_sound]; exact H. Qed.
+Print Assumptions C07_constructors_sound.
